@@ -9,6 +9,7 @@ import (
 	"errors"
 	"fmt"
 	"sort"
+	"time"
 
 	"github.com/aws/aws-sdk-go-v2/aws"
 	kmsv2 "github.com/aws/aws-sdk-go-v2/service/kms"
@@ -70,7 +71,10 @@ type fakeRegion struct {
 	master                    []byte
 	failGen, failEnc, failDec bool
 	wrongPlain                bool
-	errKind                   int // which error a failing call returns, see failure()
+	errKind                   int           // which error a failing call returns, see failure()
+	lat                       time.Duration // how long a call to this region takes (simulated time)
+	cancelled                 int           // calls given up because the request context was done
+	wrongKey                  int           // requests naming a master key this region does not have
 	log                       *[]string
 	handed                    *[][]byte // plaintext data keys this node returned (retained to check wiping)
 	rnd                       *simrt.Rand
@@ -93,6 +97,44 @@ func (f *fakeRegion) failure() error {
 	return errors.New("KMSInternalException")
 }
 
+// knows checks the key id of a request the way a regional endpoint does: it only has its own master
+// key; Encrypt and GenerateDataKey must name it, Decrypt may (a symmetric ciphertext names its key).
+func (f *fakeRegion) knows(keyID *string, required bool) error {
+	if keyID == nil {
+		if required {
+			return errors.New("ValidationException: KeyId is required")
+		}
+		return nil
+	}
+	if *keyID != f.arn {
+		f.wrongKey++
+		if required {
+			return errors.New("NotFoundException: key " + *keyID + " does not exist in " + f.region)
+		}
+		return errors.New("IncorrectKeyException: the key id in the request does not identify the key that encrypted the ciphertext")
+	}
+	return nil
+}
+
+// slow lets the region's latency pass on the simulated clock; like the real clients it gives up with
+// the context's error as soon as the request context is done.
+func (f *fakeRegion) slow(ctx context.Context) error {
+	if f.lat > 0 && ctx.Err() == nil {
+		woke := false
+		h := f.s.AddTimer(f.lat, func() { woke = true })
+		f.s.Block("kms.latency", func() bool { return woke || ctx.Err() != nil })
+		h.Cancel()
+	}
+	if err := ctx.Err(); err != nil {
+		f.cancelled++
+		return fmt.Errorf("operation error KMS: request canceled: %w", err)
+	}
+	return nil
+}
+
+// regionLatencies: most regions answer at once, some take longer than any plausible client-side wait.
+var regionLatencies = []time.Duration{0, 0, 0, 0, 120 * time.Millisecond, 800 * time.Millisecond, 4 * time.Second, 45 * time.Second}
+
 func (f *fakeRegion) gcm() cipher.AEAD {
 	b, _ := aes.NewCipher(f.master)
 	g, _ := cipher.NewGCM(b)
@@ -114,8 +156,11 @@ func (f *fakeRegion) open(blob []byte) ([]byte, error) {
 	return f.gcm().Open(nil, blob[:12], blob[12:], nil)
 }
 
-func (f *fakeRegion) generate() ([]byte, []byte, error) {
+func (f *fakeRegion) generate(ctx context.Context) ([]byte, []byte, error) {
 	f.s.Point(simrt.KSeam, "kms.generate")
+	if err := f.slow(ctx); err != nil {
+		return nil, nil, err
+	}
 	*f.log = append(*f.log, "gen:"+f.region)
 	if f.failGen {
 		return nil, nil, f.failure()
@@ -129,8 +174,11 @@ func (f *fakeRegion) generate() ([]byte, []byte, error) {
 	return plain, f.seal(plain), nil
 }
 
-func (f *fakeRegion) encrypt(plain []byte) ([]byte, error) {
+func (f *fakeRegion) encrypt(ctx context.Context, plain []byte) ([]byte, error) {
 	f.s.Point(simrt.KSeam, "kms.encrypt")
+	if err := f.slow(ctx); err != nil {
+		return nil, err
+	}
 	*f.log = append(*f.log, "enc:"+f.region)
 	// the request buffer holds the plaintext data key as well: it is retained like the ones handed out
 	*f.handed = append(*f.handed, plain)
@@ -140,8 +188,11 @@ func (f *fakeRegion) encrypt(plain []byte) ([]byte, error) {
 	return f.seal(plain), nil
 }
 
-func (f *fakeRegion) decrypt(blob []byte) ([]byte, error) {
+func (f *fakeRegion) decrypt(ctx context.Context, blob []byte) ([]byte, error) {
 	f.s.Point(simrt.KSeam, "kms.decrypt")
+	if err := f.slow(ctx); err != nil {
+		return nil, err
+	}
 	*f.log = append(*f.log, "dec:"+f.region)
 	if f.failDec && !f.wrongPlain {
 		return nil, f.failure()
@@ -163,22 +214,31 @@ func (f *fakeRegion) decrypt(blob []byte) ([]byte, error) {
 // v1 client
 type fakeV1 struct{ f *fakeRegion }
 
-func (c fakeV1) EncryptWithContext(_ awsv1.Context, in *kmsv1.EncryptInput, _ ...request.Option) (*kmsv1.EncryptOutput, error) {
-	b, err := c.f.encrypt(in.Plaintext)
+func (c fakeV1) EncryptWithContext(ctx awsv1.Context, in *kmsv1.EncryptInput, _ ...request.Option) (*kmsv1.EncryptOutput, error) {
+	if err := c.f.knows(in.KeyId, true); err != nil {
+		return nil, err
+	}
+	b, err := c.f.encrypt(ctx, in.Plaintext)
 	if err != nil {
 		return nil, err
 	}
 	return &kmsv1.EncryptOutput{CiphertextBlob: b, KeyId: in.KeyId}, nil
 }
-func (c fakeV1) GenerateDataKeyWithContext(_ awsv1.Context, in *kmsv1.GenerateDataKeyInput, _ ...request.Option) (*kmsv1.GenerateDataKeyOutput, error) {
-	p, b, err := c.f.generate()
+func (c fakeV1) GenerateDataKeyWithContext(ctx awsv1.Context, in *kmsv1.GenerateDataKeyInput, _ ...request.Option) (*kmsv1.GenerateDataKeyOutput, error) {
+	if err := c.f.knows(in.KeyId, true); err != nil {
+		return nil, err
+	}
+	p, b, err := c.f.generate(ctx)
 	if err != nil {
 		return nil, err
 	}
 	return &kmsv1.GenerateDataKeyOutput{Plaintext: p, CiphertextBlob: b, KeyId: awsv1.String(c.f.arn)}, nil
 }
-func (c fakeV1) DecryptWithContext(_ awsv1.Context, in *kmsv1.DecryptInput, _ ...request.Option) (*kmsv1.DecryptOutput, error) {
-	p, err := c.f.decrypt(in.CiphertextBlob)
+func (c fakeV1) DecryptWithContext(ctx awsv1.Context, in *kmsv1.DecryptInput, _ ...request.Option) (*kmsv1.DecryptOutput, error) {
+	if err := c.f.knows(in.KeyId, false); err != nil {
+		return nil, err
+	}
+	p, err := c.f.decrypt(ctx, in.CiphertextBlob)
 	if err != nil {
 		return nil, err
 	}
@@ -188,22 +248,31 @@ func (c fakeV1) DecryptWithContext(_ awsv1.Context, in *kmsv1.DecryptInput, _ ..
 // v2 client
 type fakeV2 struct{ f *fakeRegion }
 
-func (c fakeV2) Encrypt(_ context.Context, in *kmsv2.EncryptInput, _ ...func(*kmsv2.Options)) (*kmsv2.EncryptOutput, error) {
-	b, err := c.f.encrypt(in.Plaintext)
+func (c fakeV2) Encrypt(ctx context.Context, in *kmsv2.EncryptInput, _ ...func(*kmsv2.Options)) (*kmsv2.EncryptOutput, error) {
+	if err := c.f.knows(in.KeyId, true); err != nil {
+		return nil, err
+	}
+	b, err := c.f.encrypt(ctx, in.Plaintext)
 	if err != nil {
 		return nil, err
 	}
 	return &kmsv2.EncryptOutput{CiphertextBlob: b, KeyId: in.KeyId}, nil
 }
-func (c fakeV2) GenerateDataKey(_ context.Context, in *kmsv2.GenerateDataKeyInput, _ ...func(*kmsv2.Options)) (*kmsv2.GenerateDataKeyOutput, error) {
-	p, b, err := c.f.generate()
+func (c fakeV2) GenerateDataKey(ctx context.Context, in *kmsv2.GenerateDataKeyInput, _ ...func(*kmsv2.Options)) (*kmsv2.GenerateDataKeyOutput, error) {
+	if err := c.f.knows(in.KeyId, true); err != nil {
+		return nil, err
+	}
+	p, b, err := c.f.generate(ctx)
 	if err != nil {
 		return nil, err
 	}
 	return &kmsv2.GenerateDataKeyOutput{Plaintext: p, CiphertextBlob: b, KeyId: aws.String(c.f.arn)}, nil
 }
-func (c fakeV2) Decrypt(_ context.Context, in *kmsv2.DecryptInput, _ ...func(*kmsv2.Options)) (*kmsv2.DecryptOutput, error) {
-	p, err := c.f.decrypt(in.CiphertextBlob)
+func (c fakeV2) Decrypt(ctx context.Context, in *kmsv2.DecryptInput, _ ...func(*kmsv2.Options)) (*kmsv2.DecryptOutput, error) {
+	if err := c.f.knows(in.KeyId, false); err != nil {
+		return nil, err
+	}
+	p, err := c.f.decrypt(ctx, in.CiphertextBlob)
 	if err != nil {
 		return nil, err
 	}
@@ -268,9 +337,15 @@ func runC17(t *simrt.Tape, o Opts) Outcome {
 			return m
 		}
 		crypto := aead.NewAES256GCM()
+		// the AWS configuration handed to the v2 builder may already carry a region (AWS_REGION set,
+		// or a shared config): each regional client must still talk to its own region
+		cfgRegion := ""
+		if !swept && t.Choose(3, "aws-config-region") == 1 {
+			cfgRegion = regions[t.Choose(len(regions), "aws-config-region.which")]
+		}
 		build := func(v2 bool, nodes map[string]*fakeRegion) (appencryption.KeyManagementService, error) {
 			if v2 {
-				b := pluginv2.NewBuilder(crypto, arn).WithPreferredRegion(regions[pref]).WithAWSConfig(aws.Config{}).
+				b := pluginv2.NewBuilder(crypto, arn).WithPreferredRegion(regions[pref]).WithAWSConfig(aws.Config{Region: cfgRegion}).
 					WithKMSFactory(func(cfg aws.Config, _ ...func(*kmsv2.Options)) pluginv2.AWSClient { return fakeV2{nodes[cfg.Region]} })
 				return b.Build()
 			}
@@ -288,6 +363,13 @@ func runC17(t *simrt.Tape, o Opts) Outcome {
 			ek := t.Choose(5, "errkind")
 			for _, r := range regions {
 				wrapNodes[r].errKind, unwrapNodes[r].errKind = ek, ek
+			}
+		}
+		if !swept && t.Choose(2, "slow-regions") == 1 {
+			// some regions answer slowly (the request context of the caller stays alive throughout)
+			for _, r := range regions {
+				wrapNodes[r].lat = regionLatencies[t.Choose(len(regionLatencies), "region.latency")]
+				unwrapNodes[r].lat = regionLatencies[t.Choose(len(regionLatencies), "region.latency")]
 			}
 		}
 		for i, r := range regions {
